@@ -425,18 +425,23 @@ func (s *Solver) solveOne(i int, o *Obligation) {
 		}
 		return
 	}
-	// stage 1: z3-new with and without array extensionality, side by side, short
+	// stage 1: z3-new with and without array extensionality and cvc5, side by side, short
 	var a solveAnswer
 	{
 		c1, cancel1 := context.WithCancel(ctx)
-		ch1 := make(chan solveAnswer, 2)
-		go func() { ch1 <- runSolver(c1, solvers[0], file, t1) }()
-		go func() { ch1 <- runSolver(c1, solvers[3], file, t1) }()
-		x := <-ch1
-		if x.verdict != "unsat" && x.verdict != "sat" {
+		ch1 := make(chan solveAnswer, 3)
+		stage1 := []solverSpec{solvers[0], solvers[3], solvers[1]}
+		for _, sv := range stage1 {
+			go func(sv solverSpec) { ch1 <- runSolver(c1, sv, file, t1) }(sv)
+		}
+		var x solveAnswer
+		for i := range stage1 {
 			y := <-ch1
-			if y.verdict == "unsat" || y.verdict == "sat" || y.solver == solvers[0].name {
+			if i == 0 || y.verdict == "unsat" || y.verdict == "sat" || (y.solver == solvers[0].name && x.verdict != "unsat" && x.verdict != "sat") {
 				x = y
+			}
+			if x.verdict == "unsat" || x.verdict == "sat" {
+				break
 			}
 		}
 		cancel1()
